@@ -15,6 +15,7 @@ import (
 	"sort"
 	"strconv"
 	"strings"
+	"sync"
 
 	kit "github.com/dapr/kit/crypto"
 	"github.com/dapr/kit/crypto/padding"
@@ -160,27 +161,68 @@ func buildAlgs() (algs []*algInfo, fromSource bool) {
 
 var algByName = map[string]*algInfo{}
 
+// env is one worker's private copy of the key space (jwk.Key values carry a
+// lock; sharing them between 16 workers serialises the run).
+type env struct {
+	keys      []*cryptokeys.Key // the key dimension: oct sizes + key A of every asymmetric kind
+	sigKeys   []*cryptokeys.Key // keys + key B of every asymmetric kind
+	ids       []string          // ids[i] = keys[i].String()
+	keyByID   map[string]*cryptokeys.Key
+	octBySize map[int]*cryptokeys.Key
+}
+
 var (
-	allKeys   []*cryptokeys.Key // the key dimension: oct sizes + key A of every asymmetric kind
-	keyByID   = map[string]*cryptokeys.Key{}
-	octBySize = map[int]*cryptokeys.Key{}
+	baseKeys []*cryptokeys.Key
+	baseB    []*cryptokeys.Key
+	envPool  sync.Pool
 )
 
 func initKeys() {
-	if allKeys != nil {
+	if baseKeys != nil {
 		return
 	}
-	allKeys = cryptokeys.All()
-	for _, k := range allKeys {
-		keyByID[k.String()] = k
-		if k.Kind == cryptokeys.Oct {
-			octBySize[k.Size] = k
+	baseKeys = cryptokeys.All()
+	for _, kd := range cryptokeys.AsymKinds {
+		baseB = append(baseB, cryptokeys.Asym(kd, "B"))
+	}
+}
+
+func newEnv() *env {
+	e := &env{keyByID: map[string]*cryptokeys.Key{}, octBySize: map[int]*cryptokeys.Key{}}
+	for _, k := range baseKeys {
+		c := k.Clone()
+		e.keys = append(e.keys, c)
+		e.ids = append(e.ids, c.String())
+		e.keyByID[c.String()] = c
+		if c.Kind == cryptokeys.Oct {
+			e.octBySize[c.Size] = c
 		}
 	}
-	for _, kd := range cryptokeys.AsymKinds {
-		k := cryptokeys.Asym(kd, "B")
-		keyByID[k.String()] = k
+	e.sigKeys = append(e.sigKeys, e.keys...)
+	for _, k := range baseB {
+		c := k.Clone()
+		e.sigKeys = append(e.sigKeys, c)
+		e.keyByID[c.String()] = c
 	}
+	return e
+}
+
+func getEnv() *env {
+	if e, ok := envPool.Get().(*env); ok {
+		return e
+	}
+	return newEnv()
+}
+
+func putEnv(e *env) { envPool.Put(e) }
+
+func (e *env) asym(kind cryptokeys.Kind, which string) *cryptokeys.Key {
+	return e.keyByID[string(kind)+"#"+which]
+}
+
+func (e *env) partner(k *cryptokeys.Key) *cryptokeys.Key {
+	p := cryptokeys.Partner(k)
+	return e.keyByID[p.String()]
 }
 
 // symKeyLen is the reference's view of a key handed to a symmetric entry
@@ -283,6 +325,13 @@ func errName(err error) string {
 // a sentinel for the case at hand; if every present fault is outside it any
 // non-nil error is accepted.
 func sentinelOK(err error, present, demanded cryptoref.Fault) bool {
+	if present&cryptoref.FaultAlg != 0 {
+		// for a name that is not a supported algorithm of the entry point no
+		// key is of the right kind either (Encrypt routes the unsupported
+		// A*GCMKW constants to the symmetric family, which then objects to an
+		// RSA key): both sentinels describe the input correctly
+		present |= cryptoref.FaultKey
+	}
 	if present&demanded != present {
 		// something is wrong for which no sentinel is clearly defined: the
 		// implementation may legitimately report that one
